@@ -21,6 +21,46 @@ func hasLenSym(f lin) bool {
 	return false
 }
 
+// derivesFromLen: v is computed from a len(...) through arithmetic, phis,
+// conversions or module functions that return such a value (sizes summed in a loop).
+func derivesFromLen(v ssa.Value, depth int, seen map[ssa.Value]bool) bool {
+	if v == nil || depth > 10 || seen[v] {
+		return false
+	}
+	seen[v] = true
+	switch x := v.(type) {
+	case *ssa.Call:
+		if b, ok := x.Call.Value.(*ssa.Builtin); ok {
+			return b.Name() == "len"
+		}
+		if g := staticCallee(&x.Call); g != nil && InModule(g) && g.Blocks != nil && isIntType(x.Type()) {
+			for _, b := range g.Blocks {
+				if r, ok := b.Instrs[len(b.Instrs)-1].(*ssa.Return); ok && len(r.Results) >= 1 {
+					if derivesFromLen(r.Results[0], depth+1, seen) {
+						return true
+					}
+				}
+			}
+		}
+	case *ssa.BinOp:
+		switch x.Op {
+		case token.ADD, token.SUB, token.MUL, token.SHL:
+			return derivesFromLen(x.X, depth+1, seen) || derivesFromLen(x.Y, depth+1, seen)
+		}
+	case *ssa.Convert:
+		return derivesFromLen(x.X, depth+1, seen)
+	case *ssa.ChangeType:
+		return derivesFromLen(x.X, depth+1, seen)
+	case *ssa.Phi:
+		for _, e := range x.Edges {
+			if derivesFromLen(e, depth+1, seen) {
+				return true
+			}
+		}
+	}
+	return false
+}
+
 // narrowingObs: obligations for conversions to uint8/uint16 of length-derived values.
 func narrowingObs(a *boundsAn, ins ssa.Instruction) []boundsOb {
 	cv, ok := ins.(*ssa.Convert)
@@ -41,14 +81,14 @@ func narrowingObs(a *boundsAn, ins ssa.Instruction) []boundsOb {
 	if b, isB := operand.(*ssa.BinOp); isB && b.Op == token.SHR {
 		if k, isC := constInt(b.Y); isC && k > 0 && k < 48 {
 			f := a.formOf(b.X)
-			if !hasLenSym(f) {
+			if !hasLenSym(f) && !derivesFromLen(b.X, 0, map[ssa.Value]bool{}) {
 				return nil
 			}
 			return []boundsOb{{ins, fmt.Sprintf("length fits %d bits before narrowing", 8+k), linConst((int64(1) << uint(8+k)) - 1).sub(f)}}
 		}
 	}
 	f := a.formOf(operand)
-	if !hasLenSym(f) {
+	if !hasLenSym(f) && !derivesFromLen(operand, 0, map[ssa.Value]bool{}) {
 		return nil
 	}
 	// low byte of a multi-byte encoding: byte(x) next to byte(x >> k) in the same function
